@@ -135,9 +135,24 @@ def check(case, ctx):
         if case["src"]["kind"] == "struct" and smask is None:
             ctx.event("structured-unmasked-linear(skipped)")
             return
-    pinfo = fm.Info(time=hs.T0, grid=sg, units="m", mask=(to_shape(smask, sshape, sorder) if smask is not None else fm.Mask.FLEX))
-    cinfo = fm.Info(time=hs.T0, grid=tg, units="m", mask=(to_shape(tmask, tshape, torder) if tmask is not None else fm.Mask.FLEX))
-    ada = fm.adapters.RegridNearest() if method == "nearest" else fm.adapters.RegridLinear(fill_with_nearest=fill)
+    # who declares the grids: both ends | the adapter supplies the target grid (consumer leaves it open) |
+    # the adapter supplies the source grid (producer leaves it open)  [C07: metadata through rewriting adapters]
+    meta = case.get("meta", "both")
+    if smask is not None and meta == "producer-open":
+        meta = "both"  # a fixed mask needs the producer's own grid
+    if tmask is not None and meta == "consumer-open":
+        meta = "both"
+    ctx.event(f"meta={meta}")
+    pinfo = fm.Info(time=hs.T0, grid=(None if meta == "producer-open" else sg), units="m",
+                    mask=(to_shape(smask, sshape, sorder) if smask is not None else fm.Mask.FLEX))
+    cinfo = fm.Info(time=hs.T0, grid=(None if meta == "consumer-open" else tg), units=(None if meta == "consumer-open" else "m"),
+                    mask=(to_shape(tmask, tshape, torder) if tmask is not None else fm.Mask.FLEX))
+    kw = {}
+    if meta == "consumer-open":
+        kw["out_grid"] = tg
+    if meta == "producer-open":
+        kw["in_grid"] = sg
+    ada = fm.adapters.RegridNearest(**kw) if method == "nearest" else fm.adapters.RegridLinear(fill_with_nearest=fill, **kw)
     out = fm.Output(name="o", info=pinfo)
     inp = fm.Input(name="i", info=cinfo)
     out >> ada >> inp
@@ -150,6 +165,20 @@ def check(case, ctx):
             ctx.event("linear-domain-not-covered(refused)")  # documented refusal: fixed target mask not covered by the hull
             return
         ctx.violation(f"{method}-exchange-refused", f"{type(e).__name__}: {str(e)[:160]}" + info)
+        return
+    # metadata after the exchange: the input knows the target grid, units and time; the output the source grid
+    ii = inp.info
+    if ii.grid is None or ii.units is None or ii.time is None or ii.mask is None:
+        ctx.violation("meta-unset-after-exchange", f"input info has an unset field after the exchange: {ii!r}" + info)
+        return
+    if not (ii.grid == tg):
+        ctx.violation("meta-target-grid", f"input grid {ii.grid!r} is not the target grid ({meta})" + info)
+        return
+    if str(ii.units) != "m":
+        ctx.violation("meta-units", f"input units {ii.units!s}, delivered m" + info)
+        return
+    if out.info.grid is None or not (out.info.grid == sg):
+        ctx.violation("meta-source-grid", f"output grid {out.info.grid!r} is not the source grid ({meta})" + info)
         return
     out.push_data(payload, hs.T0)
     r = inp.pull_data(hs.T0)
@@ -252,6 +281,7 @@ def nearest_case(draw):
         "tmask": draw(st.one_of(st.none(), st.none(), st.integers(1, 2**40))),
         "method": "nearest",
         "fill": False,
+        "meta": draw(st.sampled_from(["both", "both", "consumer-open", "producer-open"])),
     }
 
 
@@ -287,6 +317,7 @@ def linear_case(draw):
         "tmask": draw(st.one_of(st.none(), st.none(), st.none(), st.integers(1, 2**40))),
         "method": "linear",
         "fill": draw(st.booleans()),
+        "meta": draw(st.sampled_from(["both", "both", "consumer-open", "producer-open"])),
     }
 
 
